@@ -16,7 +16,7 @@
 EXTENDS MC_Node
 
 ProbeEnv(s) == [Env0 EXCEPT !.ledger = LedgerAt(IF s.started THEN s.h ELSE H)]
-NoOps(s) == {c \in Calls(s) : c.call # "Reset" /\ \A o \in Node!Api(s, c.call, c.arg, ProbeEnv(s)) : Strip(o) = s /\ o.out = <<>>}
+NoOps(s) == {c \in Calls(s) : c.call \notin {"Reset", "SetWatch"} /\ \A o \in Node!Api(s, c.call, c.arg, ProbeEnv(s)) : Strip(o) = s /\ o.out = <<>>}
 RECURSIVE SetSeq(_)
 SetSeq(S) == IF S = {} THEN <<>> ELSE LET e == CHOOSE y \in S : TRUE IN <<e>> \o SetSeq(S \ {e})
 EmitCover2 == (Emit /\ (CoverMod = 1 \/ TLCGet("generated") % CoverMod = 0)) =>
